@@ -29,7 +29,7 @@ Inductive final_res :=
 | FinalTooMany         (* "too many 1xx informational responses" *)
 | Final (b : hblock).
 
-Fixpoint final_block (budget : nat) (bs : list hblock) : final_res :=
+Fixpoint final_block (budget : nat) (bs : list hblock) {struct bs} : final_res :=
   match bs with
   | [] => FinalNone
   | b :: r =>
